@@ -9,7 +9,10 @@ with the newest (skipped) one last; `Intact all db` says its immutable chunks ar
 `db`, none empty, slots strictly increasing along the chain `db.flatten`. No bound on the number of
 chunks, their sizes or the slots.
 
-* `read_all` — every block of the immutable chunks once, in chain (= slot) order;
+* `read_all` — every block of the immutable chunks once, in chain (= slot) order; the newest chunk
+  file is excluded for every file count (`stack_length`): `no_chunk_db_is_empty`,
+  `single_chunk_db_is_empty` (no block, no tip, every point refused, whatever the single file holds),
+  `two_chunk_db_serves_the_older`;
 * `binary_search_picks_containing_chunk` — on strictly descending first slots the modified binary
   search returns the newest chunk starting at or before the slot (`none` iff there is none), and
   it never panics or diverges on any input (`binary_search_total`);
@@ -478,6 +481,32 @@ theorem right_slot_wrong_hash_fails (all : List (Chunk H)) (db : List (List (Blo
   · have := hsorted i j hi hj hij; omega
   · subst hij; exact hne hh.symm
   · have := hsorted j i hj hi hij; omega
+
+/-! ## the newest chunk file is never served: directories with no or one chunk file -/
+
+/-- `build_stack_of_chunk_names` drops the newest chunk file whatever the count: with `n` chunk files
+    exactly the `n − 1` older ones are immutable -/
+theorem stack_length (all : List (Chunk H)) : (stack all).length = all.length - 1 := by
+  simp [stack]
+
+/-- An empty directory holds nothing: no block, no tip, every point (exact or fuzzy) is refused. -/
+theorem no_chunk_db_is_empty (slot : Nat) (hash : Option H) :
+    readBlocks ([] : List (Chunk H)) = [] ∧ getTip ([] : List (Chunk H)) = .ok none ∧
+    readBlocksFromPoint ([] : List (Chunk H)) slot hash = .err .cannotFind := by
+  refine ⟨rfl, rfl, ?_⟩
+  simp [readBlocksFromPoint, stack, chunkBinarySearch, bsLoop]
+
+/-- A directory with exactly one chunk file holds nothing immutable either — whatever that file
+    contains: it is the newest file, still volatile, and is not read at all. -/
+theorem single_chunk_db_is_empty (c : Chunk H) (slot : Nat) (hash : Option H) :
+    readBlocks [c] = [] ∧ getTip [c] = .ok none ∧ readBlocksFromPoint [c] slot hash = .err .cannotFind ∧
+    (∀ g, readBlocksFromOrigin g [c] = .ok []) := by
+  refine ⟨rfl, rfl, ?_, fun g => rfl⟩
+  simp [readBlocksFromPoint, stack, chunkBinarySearch, bsLoop]
+
+/-- with two files the older one is served and the newer one is not -/
+theorem two_chunk_db_serves_the_older (c newest : Chunk H) : readBlocks [c, newest] = c := by
+  simp [readBlocks, readers, stack]
 
 /-! ## the `Origin` arm -/
 
